@@ -266,6 +266,28 @@ pub fn build_repo(seed: u64, scratch: &Scratch) -> RepoInfo {
             }
         }
     }
+    // a blob sharing 4 hex digits with a commit that has a parent: the prefix is unique only among
+    // commits, which is what a describe name (`<anything>-<n>-g<hex>`) asks for — also the second time
+    // `<describe>^-<n>` resolves it
+    if let Some(base) = commits.iter().find(|c| parents.get(*c).map_or(false, |p| !p.is_empty())).cloned() {
+        if !ambiguous.iter().any(|(p, _)| base.starts_with(p.as_str())) {
+            let mut i = 0u64;
+            loop {
+                let content = format!("describe collide {seed} {i}\n");
+                let id = sha1_hex(gix_object::Kind::Blob, content.as_bytes());
+                if id[..4] == base[..4] {
+                    let o = git(&dir, &["hash-object", "-w", "--stdin"], Some(content.as_bytes()));
+                    assert!(o.ok);
+                    ambiguous.push((base[..4].to_string(), "commit-with-parent+blob".to_string()));
+                    break;
+                }
+                i += 1;
+                if i > 40_000_000 {
+                    break;
+                }
+            }
+        }
+    }
     // index state: a staged change, or an unresolved merge conflict (stages 1,2,3)
     let mut conflicted = false;
     if r.chance(1, 2) {
@@ -724,7 +746,18 @@ pub fn gen_spec(r: &mut Rng, info: &RepoInfo) -> Spec {
         (format!("{}{}", a.text, n), format!("{}{}", a.label, n), a, !n.is_empty())
     };
     let mut sp = Spec { text: String::new(), label: String::new(), single: true, nameless_anchor: false, has_navs: false, ambiguous_anchor: false };
-    match r.below(20) {
+    let describe_prefix = info.ambiguous.iter().find(|(_, w)| w == "commit-with-parent+blob").map(|(p, _)| p.clone());
+    match r.below(21) {
+        20 if describe_prefix.is_some() => {
+            // a describe name whose hex part is unique only among commits
+            let p = describe_prefix.expect("checked");
+            let name = *r.pick(&["v1.0", "anything", "x"]);
+            let n = *r.pick(&[0usize, 2, 7]);
+            let suf = *r.pick(&["", "^-", "^-1", "^-", "^-1", "^-2", "^@", "^!", "~1", "^{tree}", "^0"]);
+            sp.text = format!("{name}-{n}-g{p}{suf}");
+            sp.label = format!("<describe name, hex part ambiguous with a blob>{suf}");
+            sp.single = suf.is_empty() || suf.starts_with('~') || suf.starts_with("^{") || suf == "^0";
+        }
         0..=8 | 17.. => {
             let (t, l, a, navs) = rev(r, false);
             sp.text = t;
@@ -995,6 +1028,8 @@ pub fn check_spec(rep: &mut Report, repo: &gix::Repository, info: &RepoInfo, bat
         Some("<anchor><navigation>^-<n>: gitoxide uses the anchor, not the navigated revision, as the included side")
     } else if t.contains("^-") && spec.nameless_anchor && git_res.is_ok() && gix_err.starts_with("A portion of the input could not be parsed") {
         Some("@{…}^-<n> without a ref name: not supported by gitoxide")
+    } else if spec.label.starts_with("<describe name, hex part ambiguous with a blob>") && git_res.is_ok() && gix_err.starts_with("Short id") {
+        Some("<describe name> whose hex part is unique only among commits: gitoxide's delegate ignores the commit hint of disambiguate_prefix and reports an ambiguous id, git resolves it")
     } else if spec.label.contains("<hex>-dirty") && git_res.is_err() && matches!(&gix_res, Ok(Ok(_))) {
         Some("<hex>-dirty: gitoxide takes the hex part as object prefix, git refuses")
     } else if t.contains("~0") && git_res.is_err() && matches!(&gix_res, Ok(Ok((l, _))) if l.iter().any(|l| !is_commitish(repo, l))) {
